@@ -67,7 +67,7 @@ def main():
             summ = [l for l in lines if l.startswith(c.upper() + " tier")]
             harn = [l for l in lines if l.startswith("HARNESS")][:3]
             print("CHECK %s rc=%d %.0fs %s" % (c, p.returncode, time.time() - t0, summ[0] if summ else ""))
-            for k in keys[:8]:
+            for k in keys[:16]:
                 print("    " + k)
             for h in harn:
                 print("    " + h[:300])
